@@ -42,7 +42,7 @@ impl Default for Cfg {
 }
 
 pub const NAMES: [&str; 14] = ["r", "ra", "rab", "rb", "x.y", "dep-1", "D", "r_2", "a", "z9", "R", "Ra", "d", "A"];
-pub const OPNAMES: [&str; 15] = ["$a", "$ab", "$b", "$c", "$a_1", "$az", "$azure_1", "$a0", "$aZ", "$a-x", "$a-y", "$a\u{e9}", "$a{", "$a.b", "$a~"];
+pub const OPNAMES: [&str; 19] = ["$a", "$ab", "$b", "$c", "$a_1", "$az", "$azure_1", "$a0", "$aZ", "$a-x", "$a-y", "$a\u{e9}", "$a{", "$a.b", "$a~", "$a1", "$a01", "$a001", "$a10"];
 /// an operand name the condition grammar can spell (the others are reachable through `them` and prefixes only)
 pub fn spellable(n: &str) -> bool {
     n.len() > 1 && n[1..].chars().all(|c| c.is_ascii_alphanumeric() || c == '_')
@@ -156,7 +156,7 @@ pub fn random_match_on(rng: &mut Rng) -> Option<Value> {
             for s in ["s", "t", "s-", "S", ""] {
                 if rng.chance(if s == "s-" || s == "S" || s.is_empty() { 1 } else { 2 }, 3) {
                     let k = rng.below(3);
-                    let ids: Vec<i64> = (0..k).map(|_| *rng.pick(&[1i64, 2, -1, -2, 0, 1, 2, -1, 4294967297, -4294967297, i64::MAX, i64::MIN])).collect();
+                    let ids: Vec<i64> = (0..k).map(|_| *rng.pick(&[1i64, 2, -1, -2, 0, 1, 2, -1, 4294967297, -4294967297, i64::MAX, i64::MIN, 64, -64, 63, 32, 128])).collect();
                     m.push(json!([s, ids]));
                 }
             }
@@ -202,9 +202,9 @@ pub fn random_rule(rng: &mut Rng, cfg: &Cfg, name: &str, earlier: &[String]) -> 
         6..=7 => Some("filter".to_string()),
         _ => Some("dependency".to_string()),
     };
-    let pool_tags = ["t1", "t2", "T1", "", "tag with space"];
+    let pool_tags = ["t1", "t2", "T1", "", "tag with space", "t1,t2", "t1|t2", " t1", "t2 ", "t1,", "|"];
     let pool_att = ["T1234", "t1234", "TA0001", "T1234.001", "t1", "Ta0043", "tA0043.001", "Ta1"];
-    let pool_act = ["kill", "log", "Kill", ""];
+    let pool_act = ["kill", "log", "Kill", "", "kill,log", "kill|log", " kill", "log,"];
     let pick_set = |rng: &mut Rng, pool: &[&str]| -> Option<Vec<String>> {
         match rng.below(4) {
             0 => None,
@@ -291,7 +291,7 @@ pub fn random_event(rng: &mut Rng, missing: (u64, u64)) -> DynEvent {
     }
     DynEvent {
         source: rng.pick(&["s", "s", "s", "t", "u", "s-", "S", "T", ""]).to_string(),
-        id: *rng.pick(&[1i64, 1, 1, 2, 2, 0, -1, -1, 4294967297, 4294967298, -4294967295, i64::MAX, i64::MIN]),
+        id: *rng.pick(&[1i64, 1, 1, 2, 2, 0, 0, -1, -1, 4294967297, 4294967298, -4294967295, i64::MAX, i64::MIN, 64, 63, 32, 128]),
         fields,
     }
 }
@@ -330,9 +330,9 @@ pub fn gen_derived(rng: &mut Rng, n: usize, tag: &str, out: &mut dyn FnMut(Value
                 let (op, lit) = match rng.below(9) {
                     0 => (rng.below(2), Lit::None),
                     1 => (rng.below(2), Lit::Some),
-                    2 => (0, Lit::sq(*rng.pick(&["1", "/root", "root", "a", "secret", "/bin/sh", "/tmp/caf\u{fffd}/x", "42", "0.1", "4242", "-"]))),
+                    2 => (0, Lit::sq(*rng.pick(&["1", "/root", "root", "a", "secret", "/bin/sh", "/tmp/caf\u{fffd}/x", "42", "0.1", "4242", "-", "::ffff:10.0.0.1", "10.0.0.1", "::1", "fe80::1", "C:\\Windows\\cmd.exe", "/tmp/a\\b", "\\"]))),
                     3 => (2 + rng.below(4), Lit::sq(*rng.pick(&["0", "1", "0.1", "0.10000000149011612", "16777217", "-1", "18446744073709551615", "9223372036854775807"]))),
-                    4 => (6, Lit::sq(*rng.pick(&["^/", "root", ".", "caf"]))),
+                    4 => (6, Lit::sq(*rng.pick(&["^/", "root", ".", "caf", "^::ffff:", "^10\\.", ":", "\\\\", "^C:"]))),
                     5 => (7, Lit::sq(*rng.pick(&["1", "0x8000000000000000", "0"]))),
                     6 => (0, Lit::Bool(rng.chance(1, 2))),
                     7 => (0, Lit::sq("18446744073709551615")),
